@@ -23,7 +23,7 @@ def gen_scenario(rng, i):
     # name-keyed input: every entry gets its own data
     T2 = rng.randint(1, 4)
     sc["ops"].append({"op": "run", "model": 0, "X": {str(e): scengen.rows(rng, T2, din) for e in entries},
-                      "return_states": rng.choice([None, "all"])})
+                      "return_states": rng.choice([None, "all"]), "rev_keys": len(entries) > 1})
     if rng.random() < 0.5:
         sc["ops"].append({"op": "run", "model": 0, "X": scengen.rows(rng, rng.randint(1, 3), din), "stateful": False})
     if rng.random() < 0.4:
@@ -90,7 +90,8 @@ def _judge(sc):
     use_map = len(entries) > 1
     try:
         if use_map:
-            res = model.run({b1.nodes[e].name: X[e] for e in entries}, return_states="all")
+            # written with the keys in descending name order: a mapping means the same in any order
+            res = model.run({b1.nodes[e].name: X[e] for e in sorted(entries, key=lambda e: b1.nodes[e].name, reverse=True)}, return_states="all")
         else:
             res = model.run(X[entries[0]], return_states="all")
     except Exception as e:
